@@ -152,6 +152,10 @@ def _run(case, ctx, rec):
             if out["margin"] <= 1e-10:
                 ctx.near_tie()
             _fail(ctx, "decision", "decision", f"{where}: epsilon {out['epsilon']!r} vs threshold {out['beta']!r}: model drift={out['drift']}, detector {det.drift_state!r}", cfg)
+        if out["beta"] is not None and det.epsilon and getattr(det, "beta", None) is not None \
+                and got != bool(det.epsilon[-1] > det.beta):
+            # strictness of "epsilon exceeds the threshold", judged on the detector's own reported numbers
+            _fail(ctx, "decision", "decision_own_numbers", f"{where}: detector reports epsilon {det.epsilon[-1]!r}, threshold {det.beta!r} and drift_state {det.drift_state!r}", cfg)
         if det.batches_since_reset != spec.j:
             _fail(ctx, "counter", "epoch_counter", f"{where}: batches_since_reset={det.batches_since_reset}", cfg)
         want_ref = X if got else spec.ref
